@@ -78,3 +78,14 @@ Proof. reflexivity. Qed.
 Lemma skel_handler_GetDCLocationInfo_ok : skel_handler_GetDCLocationInfo =
   [IfE "err != nil" [Ret] []; Call "IsLeader"; IfE "!s.member.IsLeader()" [Ret] []; Call "GetDCLocationInfo"; IfE "!ok" [Call "ClusterDCLocationChecker"; Ret] []; Call "GetMaxLocalTSO"; Assign "resp.MaxTs" "= am.GetMaxLocalTSO(ctx)"; IfE "err != nil" [Ret] []; Ret].
 Proof. reflexivity. Qed.
+
+(* a dc-location that has lost its members: the patrol drops the allocator group in memory (allocator and leadership reset,
+   loop cancelled, map entry deleted) and removes nothing from etcd - neither the suffix of the dc-location (the model's
+   suffix store only grows: C05_suffix_stable_injective) nor its stored window (the returning allocator starts above it) *)
+Lemma skel_am_allocatorPatroller_ok : skel_am_allocatorPatroller =
+  [ForE [DeferE [Ret]; IfE "slice.NoneOf(allocatorGroups, func(i int) bool { return allocatorGroups[i].dcLocation == dcLocation })" [Call "SetUpAllocator"] []]; ForE [IfE "!exist" [Call "deleteAllocatorGroup"] []]].
+Proof. reflexivity. Qed.
+
+Lemma skel_am_deleteAllocatorGroup_ok : skel_am_deleteAllocatorGroup =
+  [Lock "am.mu"; DeferUnlock "am.mu"; IfE "exist" [Call "Reset"; Call "Reset"; Call "cancel"; Call "delete"] []].
+Proof. reflexivity. Qed.
